@@ -28,8 +28,10 @@ fn tok_text(t: &TokenReference) -> String {
 /// Normalised token text of any node (used for Luau types and other opaque constructs):
 /// tokens without trivia joined by a space; string and number tokens by value.
 pub fn opaque_text<T: FmNode>(node: &T) -> String {
+    let mut toks: Vec<&TokenReference> = node.tokens().collect();
+    toks.sort_by_key(|t| t.token().start_position().bytes());
     let mut parts = Vec::new();
-    for t in node.tokens() {
+    for t in toks {
         match t.token_type() {
             TokenType::StringLiteral { .. } => {
                 let raw = t.token().to_string();
@@ -37,6 +39,11 @@ pub fn opaque_text<T: FmNode>(node: &T) -> String {
             }
             TokenType::Number { text } => parts.push(format!("N<{}>", decode::num_value(text.as_str()))),
             TokenType::Eof => {}
+            // parentheses and separators in types are not compared (redundant type parentheses may be
+            // removed, trailing separators added); the Luau type-parenthesis rule is not modelled yet
+            // (DESIGN.md section 10)
+            TokenType::Symbol { symbol } if matches!(symbol, full_moon::tokenizer::Symbol::LeftParen | full_moon::tokenizer::Symbol::RightParen
+                | full_moon::tokenizer::Symbol::Comma | full_moon::tokenizer::Symbol::Semicolon) => {}
             _ => parts.push(t.token().to_string()),
         }
     }
